@@ -22,6 +22,7 @@ type c12Event struct {
 	Kind  string `json:"kind"`
 	Code  uint8  `json:"code,omitempty"`
 	Sub   *uint8 `json:"sub,omitempty"` // subcode of a received / handler NOTIFICATION (nil: 1 / 2)
+	DLen  int    `json:"dlen,omitempty"` // data octets of a received NOTIFICATION
 	State string `json:"state"`
 	Out   bool   `json:"out"`
 	Both  bool   `json:"both,omitempty"` // the other direction's connection is parked in OpenSent meanwhile
@@ -184,7 +185,7 @@ func c12Prop(t *testing.T, r *hx.Run, subs ...string) func(c c12Case) hx.Verdict
 					if e.Sub != nil {
 						sub = *e.Sub
 					}
-					cn.RemoteSend(wire.Notif{Code: e.Code, Sub: sub}.Frame(), nil)
+					cn.RemoteSend(wire.Notif{Code: e.Code, Sub: sub, Data: detBytes(e.DLen, uint32(e.Code)*256+uint32(sub))}.Frame(), nil)
 				case "marker":
 					b := wire.Keepalive()
 					b[3] = 0
@@ -348,6 +349,7 @@ func genC12(rt *rapid.T) c12Case {
 			if rapid.Bool().Draw(rt, "withsub") {
 				sub := pick[uint8](rt, "sub", 0, 1, 2, 3, 4, 5, 6, 7, 8, 9, 10, 255, rapid.Byte().Draw(rt, "subr"))
 				e.Sub = &sub
+				e.DLen = pick(rt, "dlen", 0, 0, 1, 2, 6, 21, 4075)
 			}
 		case "badopen":
 			e.State = stOpenSent
